@@ -169,3 +169,13 @@ pub fn base64_encode(val: &[u8]) -> String {
 pub fn base64_decode(val: &str) -> Result<Vec<u8>> {
     crate::utils::base64::decode(val)
 }
+
+#[cfg(feature = "w3c")]
+pub fn msgpack_encode<T: serde::Serialize>(val: T) -> Result<Vec<u8>> {
+    crate::utils::msg_pack::encode(val)
+}
+
+#[cfg(feature = "w3c")]
+pub fn msgpack_decode<T: serde::de::DeserializeOwned>(val: &[u8]) -> Result<T> {
+    crate::utils::msg_pack::decode(val)
+}
